@@ -1,7 +1,7 @@
 /-
   C01 proofs, layer 5c: the section kinds put into the uniform shape `StepRT` of the keyword-loop composition
-  (PARAM with its look-ahead, MOMOP, START, NOVER, ELEME, CONNE — the sections every written file has, plus the
-  flag sections), and the concrete canonical update / side condition per kind.
+  (PARAM with its look-ahead, ELEME, CONNE — the sections every written file has — and ROCKS, MOMOP, START, NOVER,
+  GENER, LINEQ, SOLVR), and the concrete canonical update / side condition per kind.
 -/
 import PyTough.Proofs.T2WholeFile
 namespace Proofs.T2
@@ -216,11 +216,47 @@ theorem stepRT_GENER (d d0 : T2Data) (hxp : XpFree d0) (hne : d.gens ≠ [])
     erw [h]
     rfl
 
+def canonDict (rec : Str) (d d0 : Dict) : Dict :=
+  absorb (recOf mainTabs rec).names (canonVals (recOf mainTabs rec) (lineVals (recOf mainTabs rec) d)) d0
+
+theorem stepRT_LINEQ (d d0 : T2Data) (hxp : XpFree d0) (hne : d.lineq ≠ [])
+    (hw : ∃ lines, writeDictSection mainTabs c!"LINEQ" c!"lineq" d.lineq = .ok lines) :
+    StepRT d c!"LINEQ" d0 { d0 with lineq := canonDict c!"lineq" d.lineq d0.lineq } := by
+  obtain ⟨lines, hw⟩ := hw
+  have hT : mainTabs.get c!"lineq" = .ok (recOf mainTabs c!"lineq") := by decide +kernel
+  have hr : RecWF (recOf mainTabs c!"lineq") := recWFb_spec (by decide +kernel)
+  obtain ⟨body, rfl, _⟩ := section_roundtrip_dict c!"LINEQ" c!"lineq" hT hr d.lineq d0.lineq hne hw []
+  refine stepRT_plain body hw ?_ hxp
+  intro line tail
+  obtain ⟨body', hb', h⟩ := section_roundtrip_dict c!"LINEQ" c!"lineq" hT hr d.lineq d0.lineq hne hw tail
+  cases hb'
+  have h1 : xpReadable c!"LINEQ" = false := by decide
+  unfold readSection
+  simp only [h1, Bool.false_and, Bool.false_eq_true, if_false]
+  simp (config := { decide := true }) only [h, if_true, if_false, bind, Except.bind, pure, Except.pure]
+  rfl
+
+theorem stepRT_SOLVR (d d0 : T2Data) (hxp : XpFree d0) (hne : d.solver ≠ [])
+    (hw : ∃ lines, writeDictSection mainTabs c!"SOLVR" c!"solver" d.solver = .ok lines) :
+    StepRT d c!"SOLVR" d0 { d0 with solver := canonDict c!"solver" d.solver d0.solver } := by
+  obtain ⟨lines, hw⟩ := hw
+  have hT : mainTabs.get c!"solver" = .ok (recOf mainTabs c!"solver") := by decide +kernel
+  have hr : RecWF (recOf mainTabs c!"solver") := recWFb_spec (by decide +kernel)
+  obtain ⟨body, rfl, _⟩ := section_roundtrip_dict c!"SOLVR" c!"solver" hT hr d.solver d0.solver hne hw []
+  refine stepRT_plain body hw ?_ hxp
+  intro line tail
+  obtain ⟨body', hb', h⟩ := section_roundtrip_dict c!"SOLVR" c!"solver" hT hr d.solver d0.solver hne hw tail
+  cases hb'
+  have h1 : xpReadable c!"SOLVR" = false := by decide
+  unfold readSection
+  simp only [h1, Bool.false_and, Bool.false_eq_true, if_false]
+  simp (config := { decide := true }) only [h, if_true, if_false, bind, Except.bind, pure, Except.pure]
+  rfl
 /-! ### the concrete canonical update and side condition per kind -/
 
 /-- the section kinds composed so far -/
 def wholeKinds : List Str :=
-  [c!"ROCKS", c!"PARAM", c!"MOMOP", c!"START", c!"NOVER", c!"ELEME", c!"CONNE", c!"GENER"]
+  [c!"ROCKS", c!"PARAM", c!"MOMOP", c!"START", c!"NOVER", c!"ELEME", c!"CONNE", c!"GENER", c!"LINEQ", c!"SOLVR"]
 
 /-- what reading the section `kw` written for `d` does to the reader's object `d0` -/
 def stepCanon (d : T2Data) (kw : Str) (d0 : T2Data) : T2Data :=
@@ -232,6 +268,8 @@ def stepCanon (d : T2Data) (kw : Str) (d0 : T2Data) : T2Data :=
   else if kw = c!"ELEME" then { d0 with blocks := canonBlocks d.blocks }
   else if kw = c!"CONNE" then { d0 with conns := canonConns d.conns }
   else if kw = c!"GENER" then { d0 with gens := canonGeners d.gens }
+  else if kw = c!"LINEQ" then { d0 with lineq := canonDict c!"lineq" d.lineq d0.lineq }
+  else if kw = c!"SOLVR" then { d0 with solver := canonDict c!"solver" d.solver d0.solver }
   else d0
 
 /-- the side conditions of the section `kw` of `d` (those of its `section_roundtrip_…` theorem), on the reader's
@@ -248,6 +286,8 @@ def GoodStep (d : T2Data) (kw : Str) (d0 : T2Data) : Prop :=
     (∀ g ∈ d.gens, GoodGener (fun i => fieldAt mainTabs c!"generator" i) (fieldAt mainTabs c!"generation_times" 0)
             (fieldAt mainTabs c!"generation_rates" 0) (fieldAt mainTabs c!"generation_enthalpy" 0) g) ∧
     (∀ g ∈ d.gens, ∃ ls, writeGener mainTabs g = .ok ls)
+  else if kw = c!"LINEQ" then d.lineq ≠ [] ∧ ∃ lines, writeDictSection mainTabs c!"LINEQ" c!"lineq" d.lineq = .ok lines
+  else if kw = c!"SOLVR" then d.solver ≠ [] ∧ ∃ lines, writeDictSection mainTabs c!"SOLVR" c!"solver" d.solver = .ok lines
   else True
 
 theorem wholeKinds_sections : ∀ kw, kw ∈ wholeKinds → kw ∈ allSections := by decide +kernel
@@ -255,7 +295,7 @@ theorem wholeKinds_sections : ∀ kw, kw ∈ wholeKinds → kw ∈ allSections :
 theorem step_ok (d : T2Data) (kw : Str) (d0 : T2Data) (hk : kw ∈ wholeKinds) (hxp : XpFree d0) (hg : GoodStep d kw d0) :
     StepRT d kw d0 (stepCanon d kw d0) := by
   simp only [wholeKinds, List.mem_cons, List.not_mem_nil, or_false] at hk
-  rcases hk with rfl | rfl | rfl | rfl | rfl | rfl | rfl | rfl
+  rcases hk with rfl | rfl | rfl | rfl | rfl | rfl | rfl | rfl | rfl | rfl
   · exact stepRT_ROCKS d d0 hxp hg.1 hg.2
   · exact stepRT_PARAM d d0 hxp hg.1 hg.2.1 hg.2.2
   · exact stepRT_MOMOP d d0 hxp hg.1 hg.2
@@ -264,11 +304,11 @@ theorem step_ok (d : T2Data) (kw : Str) (d0 : T2Data) (hk : kw ∈ wholeKinds) (
   · exact stepRT_ELEME d d0 hxp hg.1 hg.2
   · exact stepRT_CONNE d d0 hxp hg.1 hg.2
   · exact stepRT_GENER d d0 hxp hg.1 hg.2.1 hg.2.2
+  · exact stepRT_LINEQ d d0 hxp hg.1 hg.2
+  · exact stepRT_SOLVR d d0 hxp hg.1 hg.2
 
 theorem stepCanon_sections (d : T2Data) (kw : Str) (d0 : T2Data) : (stepCanon d kw d0).sections = d0.sections := by
-  unfold stepCanon
-  repeat' split
-  all_goals rfl
+  simp only [stepCanon, apply_ite T2Data.sections, canonParam, ite_self]
 
 theorem canonFrom_sections (step : Str → T2Data → T2Data) (h : ∀ kw d0, (step kw d0).sections = d0.sections) :
     ∀ (kws : List Str) (d0 : T2Data), (canonFrom step kws d0).sections = d0.sections ++ kws := by
